@@ -7,6 +7,7 @@ require (
 	github.com/AdguardTeam/AdGuardDNS/internal/dnsserver v0.0.0
 	github.com/AdguardTeam/golibs v0.30.4
 	github.com/anishathalye/porcupine v1.3.0
+	github.com/c2h5oh/datasize v0.0.0-20231215233829-aa82cc1e6500
 	github.com/miekg/dns v1.1.62
 	github.com/quic-go/quic-go v0.48.2
 	golang.org/x/crypto v0.30.0
@@ -22,7 +23,6 @@ require (
 	github.com/axiomhq/hyperloglog v0.2.0 // indirect
 	github.com/beorn7/perks v1.0.1 // indirect
 	github.com/bluele/gcache v0.0.2 // indirect
-	github.com/c2h5oh/datasize v0.0.0-20231215233829-aa82cc1e6500 // indirect
 	github.com/cespare/xxhash/v2 v2.3.0 // indirect
 	github.com/davecgh/go-spew v1.1.1 // indirect
 	github.com/dgryski/go-metro v0.0.0-20211217172704-adc40b04c140 // indirect
